@@ -92,6 +92,26 @@ def special_document(rng, kind):
                 }
             },
         }, "cases"
+    if kind in ("typelist_31_strings", "typelist_31_mixed"):
+        # JSON Schema type lists (OpenAPI 3.1): a list that admits strings cannot be violated by another type in a text
+        # location, one that does not can
+        if kind == "typelist_31_strings":
+            params = [
+                {"name": "q1", "in": "query", "required": True, "schema": {"type": ["string", "null"]}},
+                {"name": "p", "in": "path", "required": True, "schema": {"type": ["string", "integer"]}},
+                {"name": "n", "in": "query", "required": True, "schema": {"type": "integer", "minimum": 0}},
+            ]
+        else:
+            params = [
+                {"name": "q1", "in": "query", "required": True, "schema": {"type": ["integer", "null"], "minimum": 3}},
+                {"name": "p", "in": "path", "required": True, "schema": {"type": ["string", "null"], "minLength": 2}},
+                {"name": "X-A", "in": "header", "required": False, "schema": {"type": ["boolean", "string"]}},
+            ]
+        return {
+            "openapi": "3.1.0",
+            "info": {"title": "t", "version": "1"},
+            "paths": {"/op/{p}": {"get": {"parameters": params, "responses": ok}}},
+        }, "cases"
     if kind == "string_cookies_only":
         return {
             "openapi": "3.0.2",
@@ -155,7 +175,7 @@ def special_document(rng, kind):
     raise AssertionError(kind)
 
 
-SPECIALS = ["no_inputs", "empty_body_schema", "string_header_only", "string_path_only", "string_path_plus_int_query", "additional_only_object", "optional_body_only", "string_cookies_only", "string_cookies_plus_int_query", "string_headers_plus_int_query"]
+SPECIALS = ["no_inputs", "empty_body_schema", "string_header_only", "string_path_only", "string_path_plus_int_query", "additional_only_object", "optional_body_only", "string_cookies_only", "string_cookies_plus_int_query", "string_headers_plus_int_query", "typelist_31_strings", "typelist_31_mixed"]
 
 
 def wire_level_validity(doc, version, location, declared_here, value):
